@@ -33,7 +33,7 @@ def nabs(x):
 
 MANIFEST = dict(
     technique='explicit-state enumeration of the CTC matrix input tree x full LM/scale/bonus/beam/EOS/initial-state configuration product; real decoder + real LMWrapper + toy prefix-hash LMs vs sequential LM re-scoring and a reference LM-fused prefix beam search',
-    text='Bounded exhaustive: every matrix with T <= 3 (quick) / 4 (thorough) rows over a 6-row alphabet in each of 384 configurations. For every returned hypothesis the LM score must equal the sum of the wrapper\'s own per-character scores (+ bonus, + EOS) from the start state; best_hyp() must be the arg-max of vis + scale*LM, confidence() its posterior, the returned hidden state exactly the state of that transcript; scale 0 must reproduce LM-free decoding; the returned set must equal a reference prefix beam search ranked by the fused score. Added sub-sweeps: the same decoder object decoding another and a blank-only line first, exact ties of the fused score (hand-over and returned state must agree), and decoders built by decoder_factory from a configuration section (all scales incl. 0 x bonuses x beam widths) against directly constructed ones. After every decode the returned bag is re-weighted with each other LM scale (bag.lm_weight is a public attribute): best_hyp() and confidence() must follow the new scale. Lines with blank-only frames (incl. lines on which only the blank is possible) with a supplied start state; decode_page() over a character set that holds the space.',
+    text='Bounded exhaustive: every matrix with T <= 3 (quick) / 4 (thorough) rows over a 6-row alphabet in each of 384 configurations. For every returned hypothesis the LM score must equal the sum of the wrapper\'s own per-character scores (+ bonus, + EOS) from the start state; best_hyp() must be the arg-max of vis + scale*LM, confidence() its posterior, the returned hidden state exactly the state of that transcript; scale 0 must reproduce LM-free decoding; the returned set must equal a reference prefix beam search ranked by the fused score. Added sub-sweeps: the same decoder object decoding another and a blank-only line first, exact ties of the fused score (hand-over and returned state must agree), and decoders built by decoder_factory from a configuration section (all scales incl. 0 x bonuses x beam widths) against directly constructed ones. After every decode the returned bag is re-weighted with each other LM scale (bag.lm_weight is a public attribute): best_hyp() and confidence() must follow the new scale. Lines with blank-only frames (incl. lines on which only the blank is possible) with a supplied start state; decode_page() over a character set that holds the space. Wave 10: every single failing call of the language model (out-of-memory RuntimeError of advance_h0 / log_probs / eos_scores) during a decode of all matrices of up to two rows - a bag that is returned must still carry the LM\'s own scores, the maximum and its state; an LSTM-like LM whose state is a pair of tensors.',
     note='Toy LMs only (trained brnolm models are not available offline); the LM vocabulary equals the decoder letters; scores compared within 1e-9; near-ties (< 1e-9) of the fused score skip the arg-max clauses.',
     ref='3/C03')
 
